@@ -182,8 +182,12 @@ class RandomStateNode(Node):
         self.trusted = self._get_trusted(trusted, [np.random.RandomState])
 
     def _construct(self):
-        random_state = gettype(self.module_name, self.class_name)()
-        random_state.set_state(self.children["content"].construct())
+        state = self.children["content"].construct()
+        # set_state does not change the bit generator of a RandomState, it has
+        # to be created over the bit generator that the state belongs to
+        bit_generator = get_bit_generator_cls(state["bit_generator"])()
+        random_state = gettype(self.module_name, self.class_name)(bit_generator)
+        random_state.set_state(state)
         return random_state
 
 
